@@ -81,7 +81,7 @@ def _run_worker(make, widx, tmp):
         extra = 0
         busy = os.path.join(tmp, "busy_%d" % widx)
         while True:
-            names = sorted(f for f in os.listdir(tmp) if f.startswith("chunk_"))
+            names = sorted(f for f in os.listdir(tmp) if f.startswith("chunk_") and f.endswith(".json"))
             got = None
             for f in names:
                 try:
